@@ -11,7 +11,6 @@ import (
 	"fmt"
 	"io"
 	"net"
-	"sort"
 	"sync"
 
 	tls "github.com/refraction-networking/utls"
@@ -145,7 +144,7 @@ func isBoring(f func(int) (int, bool)) bool {
 
 // skeleton renders one extension as a Corr/C17Corr.v `sk`; ok=false when the model has no counterpart
 // (a padding functor other than BoringPaddingStyle / nil).
-func skeleton(e tls.TLSExtension) (string, bool) {
+func skeleton(e tls.TLSExtension, ref []byte) (string, bool) {
 	switch x := e.(type) {
 	case *tls.KeyShareExtension:
 		it := make([]string, len(x.KeyShares))
@@ -154,6 +153,9 @@ func skeleton(e tls.TLSExtension) (string, bool) {
 		}
 		return "SKS " + vh.List(it), true
 	case *tls.CookieExtension:
+		if len(ref) > 0 && bytes.Equal(x.Cookie, ref) {
+			return "SCookieRef", true
+		}
 		return "SCookie " + vh.Bytes(x.Cookie), true
 	case *tls.UtlsPaddingExtension:
 		boring := false
@@ -178,10 +180,10 @@ func skeleton(e tls.TLSExtension) (string, bool) {
 	return fmt.Sprintf("SOther %s %d %d", vh.Bool(psk1 || psk2), id, n), true
 }
 
-func skeletons(es []tls.TLSExtension) (string, bool) {
+func skeletons(es []tls.TLSExtension, ref []byte) (string, bool) {
 	it := make([]string, len(es))
 	for i, e := range es {
-		s, ok := skeleton(e)
+		s, ok := skeleton(e, ref)
 		if !ok {
 			return "", false
 		}
@@ -229,7 +231,7 @@ func runHRR(pr hs.Parrot, script *tls.VerifServerScript, wantExt bool) *obs {
 				return err
 			}
 			o.nBefore = len(u.Extensions)
-			o.skBefore, o.skOK = skeletons(u.Extensions)
+			o.skBefore, o.skOK = skeletons(u.Extensions, script.HRRCookie)
 			for _, e := range u.Extensions {
 				if _, ok := e.(*tls.CookieExtension); ok {
 					o.hadCookie = true
@@ -242,7 +244,7 @@ func runHRR(pr hs.Parrot, script *tls.VerifServerScript, wantExt bool) *obs {
 		}})
 	if uc != nil && o.r.BuildErr == nil {
 		o.nAfter = len(uc.Extensions)
-		o.skAfter, o.skAfterOK = skeletons(uc.Extensions)
+		o.skAfter, o.skAfterOK = skeletons(uc.Extensions, script.HRRCookie)
 		for i, e := range uc.Extensions {
 			if _, ok := e.(*tls.CookieExtension); ok && o.cookieIdx < 0 {
 				o.cookieIdx = i
@@ -282,6 +284,7 @@ func cookieOf(c *vh.Ctx, n int, tag string) []byte {
 }
 
 type job struct {
+	pi      int
 	pr      hs.Parrot
 	kind    string // "valid", "cookie-only", "unoffered", "shared", "nochange"
 	group   uint16
@@ -316,7 +319,7 @@ func run(c *vh.Ctx) {
 					first = false
 				}
 				_ = gi
-				jobs = append(jobs, job{pr, "valid", g, n, wantExt})
+				jobs = append(jobs, job{pi, pr, "valid", g, n, wantExt})
 			}
 		}
 		if len(valid) == 0 {
@@ -324,24 +327,24 @@ func run(c *vh.Ctx) {
 		}
 		// cookie-only HelloRetryRequest (RFC 8446 allows it): key_share must stay as it was
 		for _, n := range []int{16, 300} {
-			jobs = append(jobs, job{pr, "cookie-only", 0, n, thorough})
+			jobs = append(jobs, job{pi, pr, "cookie-only", 0, n, thorough})
 		}
 		// invalid selections
 		for _, g := range []uint16{25, 24, 23, 29, 30} {
 			if !hs.ContainsU16(w.SupportedGroups, g) {
-				jobs = append(jobs, job{pr, "unoffered", g, 0, false}, job{pr, "unoffered", g, 32, false})
+				jobs = append(jobs, job{pi, pr, "unoffered", g, 0, false}, job{pi, pr, "unoffered", g, 32, false})
 				break
 			}
 		}
 		for _, g := range w.KeyShareGroups {
 			if !hs.IsGREASE(g) {
-				jobs = append(jobs, job{pr, "shared", g, 0, false})
+				jobs = append(jobs, job{pi, pr, "shared", g, 0, false})
 				if thorough {
-					jobs = append(jobs, job{pr, "shared", g, 32, false})
+					jobs = append(jobs, job{pi, pr, "shared", g, 32, false})
 				}
 			}
 		}
-		jobs = append(jobs, job{pr, "nochange", 0, 0, false})
+		jobs = append(jobs, job{pi, pr, "nochange", 0, 0, false})
 	}
 	c.Extra["tls13_parrots"] = tls13
 	c.Extra["jobs"] = len(jobs)
@@ -370,11 +373,6 @@ func run(c *vh.Ctx) {
 	for i, j := range jobs {
 		judge(c, j, cookies[i], results[i])
 	}
-	keys := make([]string, 0, len(c.Dist))
-	for k := range c.Dist {
-		keys = append(keys, k)
-	}
-	sort.Strings(keys)
 }
 
 func describe(j job) map[string]any {
@@ -549,7 +547,11 @@ func judgeValid(c *vh.Ctx, j job, cookie []byte, o *obs) {
 		}
 	}
 	kind := j.kind
-	if o.skOK && o.skAfterOK {
+	// Coq elaborates long literals slowly: in the quick tier the 255- and 4094-byte cookies go to Coq for every
+	// sixth parrot only (rotating with the seed; 4094 bytes: with P-256 / X25519 only); the Go-side oracle above has judged all of them
+	if c.Tier == "quick" && ((j.cookie >= 255 && (j.pi+int(c.Seed))%6 != 0) || (j.cookie > 255 && j.group != 23 && j.group != 29)) {
+		c.Count("step-long-cookie-go-oracle-only")
+	} else if o.skOK && o.skAfterOK {
 		term := fmt.Sprintf("(CStep %d %d %d %d %d %d %s %d %s %s)", len(h1.SID), len(h1.Suites)/2, len(h1.Comp), r.View.PSKIdentities,
 			j.group, shareLen[j.group], vh.Bytes(cookie), idx, o.skBefore, o.skAfter)
 		c.Case("step-"+kind, term, fmt.Sprintf("%s/%d/%d", name, j.group, j.cookie), true,
